@@ -88,6 +88,7 @@ package staged
 //@   ensures [cursor] 0 <= s.current && s.current <= len(s.stages) && s.start == G10T0 + G10cum[s.current] && now >= s.start && wfCalc(s)
 //@   ensures [elapsed] now - G10T0 >= G10cum[len(s.stages)] ==> result == 0
 //@   ensures [in-stage] now - G10T0 < G10cum[len(s.stages)] ==> s.current < len(s.stages) && G10cum[s.current] <= now - G10T0 && now - G10T0 < G10cum[s.current + 1]
+//@   ensures [offset-inside-the-stage] s.current < len(s.stages) ==> (0 <= G10off && G10off < s.stages[s.current].Duration && G10off == now - s.start)
 //@   ensures [between-targets] s.current < len(s.stages) ==> min(s.stages[s.current].StartTarget, s.stages[s.current].EndTarget) <= result && result <= max(s.stages[s.current].StartTarget, s.stages[s.current].EndTarget)
 //@
 //@ func CalculateStagedRate
